@@ -10,7 +10,7 @@
     ChangeKey/DeleteIndex/PeekIndex/ContainsIndex succeed iff the index is held, Peek/Delete
     return a held index whose current key is extremal (any such index), ContainsKey /
     ContainsValue are existential over the held entries, Size is the number of held indices. *)
-From Algo.C05 Require Import Model Spec ProofsRange Proofs.
+From Algo.C05 Require Import Model Spec ProofsRange ProofsFibDeg Proofs.
 Open Scope Z_scope.
 
 Definition simulates (cmp : Z -> Z -> Z) (i : impl) : Prop :=
@@ -39,19 +39,28 @@ Proof. exact ibin_simulates. Qed.
 Theorem C05_ibinom_simulates : C05_ibinom_full.
 Proof. exact ibinom_simulates. Qed.
 
-(** Indexed Fibonacci heap, proved part: every run of the model that does not end in a panic or
-    a hang is a valid trace (index map, heap order, the entry pointer is extremal after every
-    operation, cut / cascading cut / consolidate keep the entries).  Missing for
-    [C05_ifib_full]: that the model never returns [Panic] (the degree bound
-    size >= F_{degree+2} under cuts, which keeps [roots[x.degree]] of consolidate in range) nor
-    [Hang] (the fuel of consolidate's restart loop).  Both are checked at run time instead: the
-    driver reports any PANIC/HANG of the extracted model on every generated history. *)
-Theorem C05_ifib_partial :
-  forall cmp, TotalOrder cmp ->
-  forall (cap : nat) (ops : list op) (outs : list out),
-    run cmp IFib cap ops = Ok outs ->
-    length outs = length ops /\ valid_trace cmp (empty_map cap) (combine ops outs).
-Proof. exact ifib_partial. Qed.
+(** Indexed Fibonacci heap: the full statement, for every comparator of a total order (the Go
+    ChangeKey leaves a key in place when the new key compares equal, so equivalent keys must be
+    equal).  Invariants behind it (Algo.C05.ProofsFib.InvF, Algo.C05.ProofsFibDeg.InvT): the
+    entries of the forest are exactly the held entries of the map, heap order, the entry
+    pointer h.ext is extremal among the roots after every operation; every degree field is the
+    number of children and each child c obeys degree(c) + [mark(c)] >= number of older
+    siblings, hence a tree of degree d has at least F(d+2) entries and d < maxDegree(n): the
+    slice [roots] of consolidate is never indexed out of range (no [Panic]); the restart loop of
+    consolidate ends within its fuel (no [Hang]). *)
+Theorem C05_ifib_simulates : C05_ifib_full.
+Proof. exact ifib_simulates. Qed.
+
+(** The degree bound in isolation: F(d+2) <= n puts d below maxDegree n (the model computes
+    maxDegree exactly as 1 + max { d | phi^d <= n }). *)
+Theorem C05_max_degree_bound : forall (d : nat) (n : Z), fibn (d + 2) <= n -> Z.of_nat d < max_degree n.
+Proof. exact max_degree_lb. Qed.
+
+(** The comparators of the correspondence (generic.NewCompareFunc[int], its reverse, and the
+    magnitude-returning a - b, 3 * (a - b), b - a) are instances of the hypotheses above. *)
+Theorem C05_harness_comparators :
+  TotalOrder cmp_min /\ TotalOrder cmp_max /\ TotalOrder cmp_sub /\ TotalOrder cmp_sub3 /\ TotalOrder cmp_rsub.
+Proof. exact harness_comparators. Qed.
 
 (** Out-of-range indices are rejected with a false result rather than a crash, in every state
     of every implementation (reachable or not), leaving the state unchanged. *)
@@ -78,5 +87,7 @@ Proof. vm_compute. reflexivity. Qed.
 
 Print Assumptions C05_ibin_simulates.
 Print Assumptions C05_ibinom_simulates.
-Print Assumptions C05_ifib_partial.
+Print Assumptions C05_ifib_simulates.
+Print Assumptions C05_max_degree_bound.
+Print Assumptions C05_harness_comparators.
 Print Assumptions C05_out_of_range_rejected.
